@@ -40,7 +40,14 @@ type PEntry struct {
 	// ModeFrom says where Mode comes from: explicit | source | default.
 	Origin   string
 	ModeFrom string
+	// SystemDir: a directory inside a tree whose destination belongs to the distribution's filesystem package
+	// (SystemDirs): rpm leaves it out like an implied parent, the other formats ship it as the tree has it.
+	SystemDir bool
 }
+
+// SystemDirs is the list of directories owned by the distribution's filesystem / logrotate packages, as the tree
+// under test states it (files/fs.go); set by the harness before planning.
+var SystemDirs = map[string]bool{}
 
 // PlanResult is the model's verdict for one list.
 type PlanResult struct {
@@ -222,13 +229,27 @@ func Plan(list []Entry, packager string, umask os.FileMode, pkgMTime time.Time, 
 				dfrom = "explicit"
 			}
 			base := NormPath(e.Dst)
-			add(PEntry{Dst: asDir(base), Kind: "dir", Owner: o, Group: g, Mode: dirMode(root), ModeFrom: dfrom, MTime: root.MTime}, idx)
+			if SystemDirs[base] {
+				// a tree replicated onto a directory of the filesystem package does not hand its owner/group on
+				o, g = "root", "root"
+				e.Owner, e.Group = "", ""
+			}
+			sysDir := func(dst string, pe PEntry) PEntry {
+				if SystemDirs[dst] {
+					pe.SystemDir = true
+					if packager == "rpm" {
+						pe.Kind = "implicit dir" // not shipped by rpm, exactly like an implied parent
+					}
+				}
+				return pe
+			}
+			add(sysDir(base, PEntry{Dst: asDir(base), Kind: "dir", Owner: o, Group: g, Mode: dirMode(root), ModeFrom: dfrom, MTime: root.MTime}), idx)
 			for _, n := range t.Below(root.Rel) {
 				rel := strings.TrimPrefix(n.Rel, root.Rel+"/")
 				dst := NormPath(base + "/" + rel)
 				switch n.Kind {
 				case "dir":
-					add(PEntry{Dst: asDir(dst), Kind: "dir", Owner: o, Group: g, Mode: dirMode(n), ModeFrom: dfrom, MTime: n.MTime}, idx)
+					add(sysDir(dst, PEntry{Dst: asDir(dst), Kind: "dir", Owner: o, Group: g, Mode: dirMode(n), ModeFrom: dfrom, MTime: n.MTime}), idx)
 				case "symlink":
 					add(PEntry{Dst: dst, Kind: "symlink", Src: n.Target, Owner: o, Group: g, MTime: firstTime(pkgMTime, n.MTime)}, idx)
 				default:
@@ -295,6 +316,14 @@ func Plan(list []Entry, packager string, umask os.FileMode, pkgMTime time.Time, 
 	for k, ps := range byPath {
 		if len(ps) > 1 {
 			dupKeys = append(dupKeys, k)
+		}
+	}
+	for _, k := range dupKeys {
+		for _, p := range byPath[k] {
+			if p.e.SystemDir {
+				// a tree's directory that belongs to the filesystem package may be redeclared; which entry wins is not documented
+				return PlanResult{Unclear: "another entry at the system directory " + k + " of a tree"}
+			}
 		}
 	}
 	if len(dupKeys) > 0 {
